@@ -252,7 +252,9 @@ func cmdDriveRequest(args []string) error {
 		if !ascii {
 			continue // IDN rules in U-label form: hosts are A-labels on the wire
 		}
-		hosts := []string{base, "a." + base, "b.a." + base}
+		// ... and names in which the text of the suffix comes twice: as whole labels further left, and as the start of
+		// an inner label
+		hosts := []string{base, "a." + base, "b.a." + base, "a." + base + ".mirror." + base, "x." + base + "ish.y." + base}
 		for hi, h := range hosts {
 			u := schemes[rnd.Intn(len(schemes))] + "://" + h + tails[rnd.Intn(len(tails))]
 			var src string
@@ -260,7 +262,7 @@ func cmdDriveRequest(args []string) error {
 			case 0:
 				src = ""
 			case 1:
-				src = "https://" + hosts[(hi+1)%3] + "/page"
+				src = "https://" + hosts[(hi+1)%len(hosts)] + "/page"
 			case 2:
 				src = "http://c." + base + "/"
 			default:
